@@ -246,9 +246,14 @@ where
         Ok(()) => {}
         Err(TestError::Fail(_, minimal)) => {
             // Re-evaluate the minimal case to get its own failure record.
-            let f = match check(&minimal) {
-                Err(f) => f,
-                Ok(_) => last_failure
+            // (a panic escaping the check itself, here or above, is not a verdict on the property)
+            let f = match std::panic::catch_unwind(std::panic::AssertUnwindSafe(|| check(&minimal))) {
+                Err(e) => Failure::new(
+                    "harness-abort",
+                    format!("the check itself panicked on the case: {}", crate::hist::panic_message(e)),
+                ),
+                Ok(Err(f)) => f,
+                Ok(Ok(_)) => last_failure
                     .borrow_mut()
                     .take()
                     .unwrap_or_else(|| Failure::new("unknown", "failure did not reproduce")),
@@ -287,5 +292,9 @@ pub fn side_note<C: Serialize>(case: &C) {
 
 /// Installs a panic hook that prints nothing (checks catch panics and report them themselves).
 pub fn silence_panics() {
-    std::panic::set_hook(Box::new(|_| {}));
+    if std::env::var_os("VERIF_PANIC_TRACE").is_some() {
+        std::panic::set_hook(Box::new(|info| eprintln!("PANIC-TRACE: {}", info)));
+    } else {
+        std::panic::set_hook(Box::new(|_| {}));
+    }
 }
